@@ -244,6 +244,26 @@ type H2Peer struct {
 	hbuf    []byte
 	wmu     sync.Mutex
 	nf      chan struct{} // closed and replaced whenever a frame is logged
+	hold    chan struct{} // when non-nil the reader pauses before its next ReadFrame until it is closed
+}
+
+// PauseReads makes the reader goroutine stop taking bytes off the connection (a client that does not
+// read: the server's writes back up in the connection's buffer). ResumeReads lets it continue.
+func (p *H2Peer) PauseReads() {
+	p.mu.Lock()
+	if p.hold == nil {
+		p.hold = make(chan struct{})
+	}
+	p.mu.Unlock()
+}
+
+func (p *H2Peer) ResumeReads() {
+	p.mu.Lock()
+	if p.hold != nil {
+		close(p.hold)
+		p.hold = nil
+	}
+	p.mu.Unlock()
 }
 
 // notify returns a channel that is closed when the next frame arrives.
@@ -278,6 +298,12 @@ func (p *H2Peer) Start() error {
 func (p *H2Peer) readLoop() {
 	defer close(p.done)
 	for {
+		p.mu.Lock()
+		gate := p.hold
+		p.mu.Unlock()
+		if gate != nil {
+			<-gate
+		}
 		f, err := p.Fr.ReadFrame()
 		if err != nil {
 			p.mu.Lock()
